@@ -53,8 +53,8 @@ func VerifC09_Cadence() {
 			// first by less than one interval (ticks are counted from the ticker's creation)
 			zz.Assert("C09.ticker_armed_after_first_evaluation", zz.GhostLen("time.ticker") == 0)
 		}
-		// at the moment of every evaluation: as many evaluations as clock readings (1 immediate + 1 per received tick)
-		zz.Assert("C09.one_evaluation_per_received_tick", len(rates) == zz.ClockLogLen())
+		// at the moment of every evaluation: one immediate evaluation plus exactly one per tick received so far
+		zz.Assert("C09.one_evaluation_per_received_tick", len(rates) == 1+zz.GhostLen("recv.ticker"))
 		// and every earlier evaluation has already been handed to the pool
 		zz.Assert("C09.previous_value_already_requested", len(c09Triggers) == len(rates)-1)
 		return v
@@ -71,7 +71,7 @@ func VerifC09_Cadence() {
 	for k := 0; k < len(rates) && k < len(c09Triggers); k++ {
 		zz.Assert("C09.value_requested_unchanged_in_order", c09Triggers[k] == rates[k])
 	}
-	zz.Assert("C09.no_evaluation_without_tick", len(rates) == zz.ClockLogLen())
+	zz.Assert("C09.no_evaluation_without_tick", len(rates) == 1+zz.GhostLen("recv.ticker"))
 	zz.Assert("C09.ticker_has_configured_interval", zz.GhostLen("time.ticker") == 1 && zz.GhostInt("time.ticker", 0, 0) == int(d))
 	zz.Assert("C09.ticker_stopped_on_exit", zz.GhostLen("time.stop") == 1)
 }
